@@ -28,7 +28,7 @@ def expected_lines(node):
 
 
 def make_case(sid, ctxflags, texts):
-    lines = ['init A %s %d' % (sid, ctxflags)]
+    lines = ['env %s %s' % (enc(b'E'), enc(b'')), 'env %s %s' % (enc(b'V'), enc(b'val')), 'init A %s %d' % (sid, ctxflags)]
     for t in texts:
         lines.append('parse_buf A ' + enc(t))
     lines.append('dump A 32')
@@ -91,6 +91,10 @@ def reduced_alphabet(sch, nocase=False):
     return names + ['7', 't1', 'T1', '=', '+=', '{', '}']
 
 
+# unquoted substitution words: a variable set to the empty string (its default is NOT used), an unset one (default used), a set one
+SUBST_WORDS = ['${E:-7}', '${U:-x}', '${V}', '${E}']
+
+
 def shard_e1(shard):
     kind, sid, ctxflags, N, prefixes, deadline = shard
     sch = SCHEMAS[sid]
@@ -98,6 +102,8 @@ def shard_e1(shard):
     drv.define_schema(sid, sch.spec())
     st = ShardStats('E1 N=%d' % N)
     alpha = reduced_alphabet(sch, bool(ctxflags & CFGF['NOCASE'])) if kind.endswith('r') else S.alphabet_for(sch)
+    if kind.endswith('s'):
+        alpha = alpha + SUBST_WORDS
     init_dump = 'dump ' + dump_sec(new_store(sch, ctxflags), 0)
     buf = []
     for prefix in prefixes:
@@ -249,9 +255,11 @@ def main():
         plan.append(('E1', fam_F + [x.sid for x in S.family_one_option() if any(o.has('K') for o in x.opts)], [IGN], 4))       # "for all context flags": undeclared items skipped
         plan.append(('E1', ['F05', 'F07'], [IGN, IGN | CFGF['COMMENTS']], 5))
         plan.append(('E1', ['F09'], [IGN], 6))      # undeclared names inside a free-form section: skipped, not collected
+        plan.append(('E1s', core, [0], 4))          # values that come from the environment
         plan.append(('E1', fam_F, [0], 5))
         plan.append(('E1', core, [0], 6))
     else:
+        plan.append(('E1s', core, [0], 5))
         plan.append(('E1', fam_F + fam_O, [IGN], 5))
         plan.append(('E1', ['F05', 'F07', 'F09'], [IGN, IGN | CFGF['COMMENTS']], 7))
         plan.append(('E1', fam_F + fam_O, CTXFLAGS, 5))
@@ -267,14 +275,15 @@ def main():
         shards = []
         for sid in sids:
             sch = SCHEMAS[sid]
-            alpha = S.alphabet_for(sch)
+            alpha = S.alphabet_for(sch) + (SUBST_WORDS if kind == 'E1s' else [])
+            sfx = 's' if kind == 'E1s' else ''
             for cf in flagsets:
                 depth = 2 if N <= 6 else 3
                 inner, frontier = trace.viable_prefixes(sch, cf, alpha, min(depth, N))
-                shards.append(('node', sid, cf, N, inner, ck.deadline))
+                shards.append(('node' + sfx, sid, cf, N, inner, ck.deadline))
                 per = 8 if N <= 5 else 2
                 for ch in chunks(frontier, per):
-                    shards.append(('dfs', sid, cf, N, ch, ck.deadline))
+                    shards.append(('dfs' + sfx, sid, cf, N, ch, ck.deadline))
         agg = {'n': 0, 'complete': True}
 
         def on(r, agg=agg):
@@ -283,7 +292,7 @@ def main():
             agg['complete'] = agg['complete'] and r['complete']
         t = time.time()
         engine.run_shards(shard_e1, shards, on_result=on)
-        ck.cov['bounds'].append({'enumeration': 'E1', 'N': N, 'schemas': len(sids), 'ctxflags': flagsets,
+        ck.cov['bounds'].append({'enumeration': 'E1' if kind == 'E1' else 'E1 with unquoted substitution words (set-but-empty, unset with default, set)', 'N': N, 'schemas': len(sids), 'ctxflags': flagsets,
                                  'cases': agg['n'], 'completed': agg['complete'], 'wall_s': round(time.time() - t, 1)})
         if not agg['complete']:
             ck.cov['exhaustive'] = False
